@@ -304,3 +304,153 @@ func init() {
 		}
 	})
 }
+
+// positional layout: the (offset, width) pairs of the variable-width integers a function writes into / reads out of one buffer
+// through the module's helpers (writeUintVar(dst[o:], v, w, ..) / readUint(src[o:..], w, ..)), sorted by offset.
+func (c *Ctx) positionalLayout(fn *ssa.Function, writer bool) []string {
+	var out []string
+	if fn == nil || fn.Blocks == nil {
+		return out
+	}
+	fb := c.FB(fn)
+	instrs(fn, func(in ssa.Instruction) {
+		call, ok := in.(*ssa.Call)
+		if !ok {
+			return
+		}
+		g := call.Call.StaticCallee()
+		if g == nil || !inModule(fnPkgPath(g)) {
+			return
+		}
+		args := call.Call.Args
+		wi := 1
+		if writer {
+			wi = 2
+		}
+		if len(args) <= wi || !isIntType(args[wi].Type()) {
+			return
+		}
+		sl, isSl := args[0].(*ssa.Slice)
+		if !isSl {
+			return
+		}
+		if _, isByteSlice := sl.Type().Underlying().(*types.Slice); !isByteSlice {
+			return
+		}
+		if writer && !isIntType(args[1].Type()) {
+			return
+		}
+		off := "+0"
+		if sl.Low != nil {
+			off = normSyms(fb.linString(fb.lin(sl.Low)))
+		}
+		out = append(out, off+" width "+normSyms(fb.linString(fb.lin(args[wi]))))
+	})
+	sort.Strings(out)
+	return out
+}
+
+func init() {
+	registry["C15"].Meta.Rules["C15.14"] = "a heap ID is taken apart as it is put together: the (offset, width) pairs of the variable-width integers encodeHeapID writes are the pairs GetObject, OverwriteObject and DeleteObject read (the length written with the width of the offset field loses its third byte: an object of exactly 65536 bytes gets an ID that says length 0)"
+	registry["C15"].Rules = append(registry["C15"].Rules, func(c *Ctx, r *Result) {
+		enc := c.FnOpt("structures.WritableFractalHeap.encodeHeapID")
+		if enc == nil {
+			r.Shortfall(c, "C15.14", "C15.14: encodeHeapID not found")
+			return
+		}
+		we := c.positionalLayout(enc, true)
+		n := 0
+		for _, dn := range []string{"structures.WritableFractalHeap.GetObject", "structures.WritableFractalHeap.OverwriteObject", "structures.WritableFractalHeap.DeleteObject"} {
+			d := c.FnOpt(dn)
+			if d == nil {
+				continue
+			}
+			rd := c.positionalLayout(d, false)
+			if len(rd) == 0 {
+				r.Undec("C15.14", "structures.WritableFractalHeap.encodeHeapID~"+dn+"#same-fields", c.Pos(d.Pos()), "no variable-width reads recognised")
+				continue
+			}
+			n++
+			r.Check(strings.Join(we, "; ") == strings.Join(rd, "; "), "C15.14", "structures.WritableFractalHeap.encodeHeapID~"+dn+"#same-fields", c.Pos(d.Pos()), "written: "+strings.Join(we, "; ")+" - read: "+strings.Join(rd, "; "))
+		}
+		if n < 2 || len(we) < 2 {
+			r.Shortfall(c, "C15.14", fmt.Sprintf("C15.14: %d decoders compared, %d fields in the encoder", n, len(we)))
+		}
+	})
+
+	registry["C15"].Meta.Rules["C15.15"] = "an overwrite replaces the whole object: in OverwriteObject the window the new bytes are copied into has exactly their length - both len(window) >= len(new) and len(new) >= len(window) follow from the size test (with the test weakened to 'not longer' a shorter value is accepted and Get returns it followed by the old tail)"
+	registry["C15"].Rules = append(registry["C15"].Rules, func(c *Ctx, r *Result) {
+		fn := c.FnOpt("structures.WritableFractalHeap.OverwriteObject")
+		if fn == nil {
+			r.Shortfall(c, "C15.15", "C15.15: OverwriteObject not found")
+			return
+		}
+		fb := c.FB(fn)
+		n := 0
+		instrs(fn, func(in ssa.Instruction) {
+			call, ok := in.(*ssa.Call)
+			if !ok {
+				return
+			}
+			if b, isB := call.Call.Value.(*ssa.Builtin); !isB || b.Name() != "copy" {
+				return
+			}
+			if sl, isSl := call.Call.Args[0].(*ssa.Slice); !isSl || sl.High == nil {
+				return
+			}
+			n++
+			d, s := fb.lenLin(call.Call.Args[0]), fb.lenLin(call.Call.Args[1])
+			ok2 := fb.ProveGE0At(d.add(s, -1), call) && fb.ProveGE0At(s.add(d, -1), call)
+			r.Check(ok2, "C15.15", c.Name(fn)+fmt.Sprintf("#window-is-exactly-the-new-value-%d", n), c.InstrPos(call), "len(window) = "+fb.linString(d)+", len(new value) = "+fb.linString(s)+": equal on every path to the copy")
+		})
+		if n == 0 {
+			r.Shortfall(c, "C15.15", "C15.15: no window copy in OverwriteObject")
+		}
+	})
+}
+
+func init() {
+	registry["C14"].Meta.Rules["C14.15"] = "the node size the tree works with is the node size its header announces: a function that stores both WritableBTreeV2.nodeSize and the header's NodeSize stores the same value into both (or one from the other); a header that always says 4096 makes a 512-byte tree accept, after a write/load cycle, records its leaf has no room for"
+	registry["C14"].Rules = append(registry["C14"].Rules, func(c *Ctx, r *Result) {
+		n := 0
+		for _, fn := range c.LibFuncs() {
+			if shortPkg(fnPkgPath(fn)) != "structures" {
+				continue
+			}
+			var a, b *FieldStore
+			for _, fs := range c.DirectFieldStores(fn) {
+				fs := fs
+				if fs.Fn != fn || fs.Val == nil {
+					continue
+				}
+				switch fs.Key {
+				case "structures.WritableBTreeV2.nodeSize":
+					a = &fs
+				case "structures.BTreeV2Header.NodeSize":
+					b = &fs
+				}
+			}
+			if a == nil || b == nil {
+				continue
+			}
+			n++
+			va, vb := stripConv(a.Val), stripConv(b.Val)
+			same := va == vb
+			if k, _ := fieldLoadKey(va); k == "structures.BTreeV2Header.NodeSize" {
+				same = true
+			}
+			if k, _ := fieldLoadKey(vb); k == "structures.WritableBTreeV2.nodeSize" {
+				same = true
+			}
+			ka, okA := constInt(va)
+			kb, okB := constInt(vb)
+			if okA && okB && ka == kb {
+				same = true
+			}
+			r.Check(same, "C14.15", c.Name(fn)+"#header-announces-the-working-node-size", c.InstrPos(b.In), "nodeSize and header.NodeSize take the same value")
+		}
+		if n == 0 {
+			r.Shortfall(c, "C14.15", "C14.15: no function stores both node size fields")
+		}
+	})
+}
